@@ -9,6 +9,7 @@ import (
 	"syscall"
 	"testing"
 	"time"
+	"unsafe"
 
 	simdjson "github.com/minio/simdjson-go"
 )
@@ -25,6 +26,28 @@ type guardBuf struct {
 const pageSize = 4096
 
 var guardPool = map[int]*guardBuf{}
+
+// guardPoolStr holds the mappings used for string buffers handed to the parser through a reused object (a second
+// set, so that input and string buffer of one call never share pages).
+var guardPoolStr = map[int]*guardBuf{}
+
+// inStrGuard reports whether addr lies in one of the string-buffer mappings (guard pages included).
+func inStrGuard(addr uintptr) bool {
+	for _, g := range guardPoolStr {
+		if lo := uintptr(unsafe.Pointer(&g.mem[0])); addr >= lo && addr < lo+uintptr(len(g.mem)) {
+			return true
+		}
+	}
+	return false
+}
+
+// guardAllocStr is guardAlloc for string buffers.
+func guardAllocStr(n int) *guardBuf {
+	saved := guardPool
+	guardPool = guardPoolStr
+	defer func() { guardPool = saved }()
+	return guardAlloc(n)
+}
 
 // guardAlloc returns a mapping with n usable bytes (rounded up to pages) between two PROT_NONE pages.
 func guardAlloc(n int) *guardBuf {
